@@ -18,6 +18,7 @@ from collections import Counter
 from harness.common import Check, Infra, ROOT, canon
 from harness.gen import multi as M
 from harness.gen import single as S
+from harness.gen import exprs as E
 from harness.props import c06, c08, c17
 from harness.translators import ordersites
 
@@ -37,7 +38,9 @@ def gen_cases(rng, n):
             a, b = rng.sample(ms, 2)
             c["graph_metrics"] = [{"name": "xm", "sql": f"{a['name']}.n + {b['name']}.n"}, {"name": "xr", "sql": f"{b['name']}.n * 100 / {a['name']}.n"}]
             c["queries"] += [{"metrics": ["xm"], "dims": [], "filters": []}, {"metrics": ["xr", "xm"], "dims": [f"{a['name']}.{a['dims'][0]['name']}"] if a["dims"] else [], "filters": []}]
+        c["orders"] = [[rng.randrange(len(c["queries"])) for _ in range(rng.choice([3, 6]))] for _ in range(2)]
         cases.append(c)
+        cases.append(gen_cyclic(rng))
     for _ in range(max(2, n // 2)):
         m = S.gen_model(rng)
         cases.append({"kind": "single", "model": m, "queries": [S.gen_query(rng, m) for _ in range(3)]})
@@ -54,6 +57,36 @@ def gen_cases(rng, n):
         dims = [f"orders.created__{d['gran']}"] + [f"orders.{x}" for x in d["extra"]]
         cases.append({"kind": "window", "desc": d, "queries": [{"metrics": ["orders.revenue", "orders.cum"], "dims": dims, "filters": []}]})
     return cases
+
+
+def gen_cyclic(rng):
+    """join graphs with two equally short routes between a pair of models (a diamond), every registration order, either side
+    declaring each edge, and queries that reach a model through metrics, dimensions or only a filter — plus random histories"""
+    names = ["orders", "customers", "stores", "regions"]
+    edges = [("orders", "customers"), ("orders", "stores"), ("customers", "regions"), ("stores", "regions")]   # child -> parent
+    if rng.random() < 0.3:
+        edges.append(("orders", "regions"))
+    ms = {n: {"name": n, "table": n + "_t", "sql": None, "pk": ["id"], "dims": [{"name": "name", "type": "categorical", "sql": None}],
+              "measures": [{"name": "n", "agg": "count", "sql": None, "star": False, "filters": []},
+                           {"name": "total", "agg": "sum", "sql": E.col("amount"), "star": False, "filters": []}], "rels": []} for n in names}
+    rng.shuffle(edges)
+    for child, parent in edges:
+        if rng.random() < 0.5:
+            ms[child]["rels"].append({"name": parent, "type": "many_to_one", "fk": parent + "_id"})
+        else:
+            ms[parent]["rels"].append({"name": child, "type": "one_to_many", "fk": parent + "_id"})
+    order = names[:]
+    rng.shuffle(order)
+    qs = []
+    for _ in range(8):
+        a = rng.choice(names)
+        others = [n for n in names if n != a]
+        q = {"metrics": [f"{a}.{rng.choice(['n', 'total'])}"], "dims": [f"{b}.name" for b in rng.sample(others, rng.choice([0, 1, 1, 2]))], "filters": []}
+        if rng.random() < 0.5:
+            q["filters"] = [E.bin_("eq", E.col(f"{rng.choice(others)}.name"), E.lit("a"))]
+        qs.append(q)
+    hist = [[rng.randrange(len(qs)) for _ in range(rng.choice([3, 6, 10]))] for _ in range(4)]
+    return {"kind": "multi", "models": [ms[n] for n in order], "queries": qs, "orders": hist}
 
 
 def run_child(cases, seed):
@@ -82,6 +115,12 @@ def compare(ck, cases, outs, stats):
                 if outs[s]["seq"][ci][qi] != outs[s]["sql"][ci][qi]:
                     ck.fail_input("compiling after other compile()/explain() calls on the same layer gives different SQL than on a fresh layer",
                                   {"case": c, "query_index": qi, "seeds": [s], "sql_a": outs[s]["sql"][ci][qi][:3000], "sql_b": outs[s]["seq"][ci][qi][:3000]})
+                    break
+            s0 = seeds[0]
+            for hi, got in enumerate(outs[s0]["seq2"][ci]):
+                if str(qi) in got and got[str(qi)] != outs[s0]["sql"][ci][qi]:
+                    ck.fail_input(f"compiling after the history {c['orders'][hi]} of other compile() calls on the same layer gives different SQL than on a fresh layer",
+                                  {"case": c, "query_index": qi, "history": c["orders"][hi], "seeds": [s0], "sql_a": outs[s0]["sql"][ci][qi][:3000], "sql_b": got[str(qi)][:3000]})
                     break
         if any(outs[s]["mutated"][ci] for s in seeds):
             ck.fail_input("compile()/explain() changed the registered definitions (model_dump differs)", {"case": c, "seeds": seeds[:1]})
@@ -114,7 +153,7 @@ def run(ck: Check):
     compare(ck, cases, outs, stats)
     ck.coverage.update({
         "evaluations": stats["compilations"], "distinct_nontrivial": stats["compiled_ok"],
-        "rule": f"{len(cases)} layers (join forests incl. cross-model graph-level derived metrics, single models, models with pre-aggregations and routed queries, ratio/derived metric layers, window metrics) x their queries x {len(seeds)} child processes with distinct PYTHONHASHSEED; per process also a reversed-order pass on one shared layer with explain() calls and repeated calls; model_dump snapshots",
+        "rule": f"{len(cases)} layers (join forests incl. cross-model graph-level derived metrics, single models, models with pre-aggregations and routed queries, ratio/derived metric layers, window metrics) x their queries x {len(seeds)} child processes with distinct PYTHONHASHSEED; per process also a reversed-order pass on one shared layer with explain() calls and repeated calls, and random histories (3-10 compiles, with repeats) each on its own shared layer; diamond join graphs (two equally short routes) in every registration/declaration order with metric-, dimension- and filter-only reachability; model_dump snapshots",
         "stats": dict(stats), "traces_validated_against_impl": stats["compilations"],
     })
     ck.assumptions += ["hash-seed sensitivity is the only source of cross-process nondeterminism considered (no time, randomness or environment reads were found in the scanned modules)",
@@ -128,7 +167,7 @@ def replay(ck, rp):
         seeds = seeds + seeds
     outs = {s: run_child([r["case"]], s) for s in dict.fromkeys(seeds)}
     qi = r.get("query_index", 0)
-    vals = [outs[s]["sql"][0][qi] for s in outs] + [outs[s]["seq"][0][qi] for s in outs]
+    vals = [outs[s]["sql"][0][qi] for s in outs] + [outs[s]["seq"][0][qi] for s in outs] + [g[str(qi)] for s in outs for g in outs[s]["seq2"][0] if str(qi) in g]
     for v in dict.fromkeys(vals):
         print(v)
         print("-----")
